@@ -248,34 +248,55 @@ func runC18(c *Ctx, r *Report) {
 	sf := p.SSAFunc(create)
 	for _, target := range []string{"ToMultihashWithIO", "ToHashable"} {
 		found := false
-		allInstrs(sf, false, func(ins ssa.Instruction) {
-			call, ok := ins.(*ssa.Call)
-			if !ok {
-				return
-			}
-			if !c.SSACallReaches(call, func(f2 *types.Func) bool { return f2.Name() == target && p.firstParty(f2.Pkg()) }) {
-				return
-			}
-			found = true
-			var arg ssa.Value
-			for _, a := range call.Call.Args {
-				if isNamed(a.Type(), p.pkgPath("iface"), "IPFSLogEntry") {
-					arg = a
-				}
-			}
-			has := false
-			if arg != nil {
-				for v := range backSlice(arg, nil) {
-					if c2, ok := v.(*ssa.Call); ok {
-						if c.SSACallReaches(c2, func(f2 *types.Func) bool { return f2.Name() == "PreSign" }) {
-							has = true
-						}
+		isTarget := func(f2 *types.Func) bool { return f2.Name() == target && p.firstParty(f2.Pkg()) }
+		// derives: the value comes from a PreSign result, or from a parameter that does at the call site we came through
+		derives := func(v ssa.Value, fromParam map[*ssa.Parameter]bool) bool {
+			for x := range backSlice(v, nil) {
+				switch y := x.(type) {
+				case *ssa.Call:
+					if c.SSACallReaches(y, func(f2 *types.Func) bool { return f2.Name() == "PreSign" }) {
+						return true
+					}
+				case *ssa.Parameter:
+					if fromParam[y] {
+						return true
 					}
 				}
 			}
-			r.Check(has, "R-C18.3", r.Key("R-C18.3", create, "presign-reaches", target), call.Pos(),
-				"the entry given to "+target+" derives from the PreSign result", "the entry given to "+target+" does not derive from the PreSign result: links are "+map[string]string{"ToMultihashWithIO": "written in clear", "ToHashable": "signed in a form the reader cannot reproduce"}[target])
-		})
+			return false
+		}
+		var scan func(fn *ssa.Function, fromParam map[*ssa.Parameter]bool, depth int)
+		scan = func(fn *ssa.Function, fromParam map[*ssa.Parameter]bool, depth int) {
+			allInstrs(fn, false, func(ins ssa.Instruction) {
+				call, ok := ins.(*ssa.Call)
+				if !ok || !c.SSACallReaches(call, isTarget) {
+					return
+				}
+				cal := call.Call.StaticCallee()
+				if cal != nil && cal.Object() != nil && !isTarget(cal.Object().(*types.Func)) && cal.Blocks != nil && depth < 3 {
+					// a first-party helper on the way to the target: look at the call inside it, with what we know of its parameters
+					inner := map[*ssa.Parameter]bool{}
+					for k, a := range call.Call.Args {
+						if k < len(cal.Params) && derives(a, fromParam) {
+							inner[cal.Params[k]] = true
+						}
+					}
+					scan(cal, inner, depth+1)
+					return
+				}
+				found = true
+				var arg ssa.Value
+				for _, a := range call.Call.Args {
+					if isNamed(a.Type(), p.pkgPath("iface"), "IPFSLogEntry") {
+						arg = a
+					}
+				}
+				has := arg != nil && derives(arg, fromParam)
+				r.Check(has, "R-C18.3", r.Key("R-C18.3", create, "presign-reaches", target), call.Pos(),
+					"the entry given to "+target+" derives from the PreSign result", "the entry given to "+target+" does not derive from the PreSign result: links are "+map[string]string{"ToMultihashWithIO": "written in clear", "ToHashable": "signed in a form the reader cannot reproduce"}[target])
+			})
+		}
+		scan(sf, nil, 0)
 		if !found {
 			r.Undecided("R-C18.3", r.Key("R-C18.3", create, "presign-reaches", target), create.Body.Pos(), "no call to "+target+" in CreateEntryWithIO")
 		}
@@ -292,16 +313,8 @@ func runC18(c *Ctx, r *Report) {
 				f["nokey"] = true
 			}
 		}
-		if be, ok := ast.Unparen(a.E).(*ast.BinaryExpr); ok && ((be.Op == token.EQL && a.Truth) || (be.Op == token.NEQ && !a.Truth)) {
-			if call, ok := ast.Unparen(be.X).(*ast.CallExpr); ok && p.Builtin(ps, call) == "len" && len(call.Args) == 1 {
-				if lit, ok := ast.Unparen(be.Y).(*ast.BasicLit); ok && lit.Value == "0" {
-					if inner, ok := ast.Unparen(call.Args[0]).(*ast.CallExpr); ok {
-						if se, ok := ast.Unparen(inner.Fun).(*ast.SelectorExpr); ok && strings.HasPrefix(se.Sel.Name, "Get") {
-							f["empty|"+strings.TrimPrefix(se.Sel.Name, "Get")] = true
-						}
-					}
-				}
-			}
+		if g := emptyGetterAtom(p, ps, a); g != "" {
+			f["empty|"+g] = true
 		}
 	}
 	pf.Edge = func(cond ast.Expr, taken bool, f Facts) {
@@ -334,17 +347,8 @@ func runC18(c *Ctx, r *Report) {
 					f["nokey"] = true
 				}
 			}
-			// len(entry.GetX()) == 0
-			if be, ok := ast.Unparen(a.E).(*ast.BinaryExpr); ok && ((be.Op == token.EQL && a.Truth) || (be.Op == token.NEQ && !a.Truth)) {
-				if call, ok := ast.Unparen(be.X).(*ast.CallExpr); ok && p.Builtin(ps, call) == "len" && len(call.Args) == 1 {
-					if lit, ok := ast.Unparen(be.Y).(*ast.BasicLit); ok && lit.Value == "0" {
-						if inner, ok := ast.Unparen(call.Args[0]).(*ast.CallExpr); ok {
-							if se, ok := ast.Unparen(inner.Fun).(*ast.SelectorExpr); ok && strings.HasPrefix(se.Sel.Name, "Get") {
-								f["empty|"+strings.TrimPrefix(se.Sel.Name, "Get")] = true
-							}
-						}
-					}
-				}
+			if g := emptyGetterAtom(p, ps, a); g != "" {
+				f["empty|"+g] = true
 			}
 		}
 	}
@@ -652,4 +656,30 @@ func derivesFromAnyParam(v ssa.Value, sf *ssa.Function) bool {
 		}
 	}
 	return false
+}
+
+// emptyGetterAtom: the atom establishes that len(x.GetNAME()) is zero, however the test is spelled
+// (`== 0`, `< 1`, `!(len > 0)`, `0 == len`): returns NAME, else "".
+func emptyGetterAtom(p *Prog, fn *Fn, a condAtom) string {
+	name := ""
+	isLenOfGetter := func(e ast.Expr) bool {
+		call, ok := ast.Unparen(e).(*ast.CallExpr)
+		if !ok || p.Builtin(fn, call) != "len" || len(call.Args) != 1 {
+			return false
+		}
+		inner, ok := ast.Unparen(call.Args[0]).(*ast.CallExpr)
+		if !ok {
+			return false
+		}
+		se, ok := ast.Unparen(inner.Fun).(*ast.SelectorExpr)
+		if !ok || !strings.HasPrefix(se.Sel.Name, "Get") {
+			return false
+		}
+		name = strings.TrimPrefix(se.Sel.Name, "Get")
+		return true
+	}
+	if nc, ok := p.normalizeCmp(fn, a, isLenOfGetter); ok && nc.impliesNonPositive() {
+		return name
+	}
+	return ""
 }
